@@ -13,7 +13,7 @@ section proj
 variable (ds : DataSource) (t : Text) (dflt : Option Nat) (split : Bool)
 
 /-- the state after the scan -/
-def finalState : IIState := t.segs.foldl (iiStep ds t.enc split dflt) { paraLevel := dflt }
+def finalState : IIState := t.segs.foldl (iiStep ds t split dflt) { paraLevel := dflt }
 
 theorem cii_classes : (computeInitialInfo ds t dflt split).classes = (finalState ds t dflt split).classes := by
   simp only [computeInitialInfo, finalState]
@@ -47,11 +47,10 @@ def finalGhost : Ghost := t.segs.foldl (gStep ds split) {}
 theorem final_rel (hwf : t.WF) :
     Rel1 ds split dflt (finalGhost ds t split) (finalState ds t dflt split) ∧
     (finalGhost ds t split).pos = t.len ∧
-    ((∀ s ∈ t.segs, FSILen ds t.enc s) →
-      Rel2 ds t.enc dflt (finalGhost ds t split) (finalState ds t dflt split)) := by
-  have := rel_fold ds t.enc split dflt t.len t.segs {} { paraLevel := dflt } (rel1_init ds split dflt)
+    Rel2 ds t dflt (finalGhost ds t split) (finalState ds t dflt split) := by
+  have := rel_fold ds t split dflt t.len t.segs {} { paraLevel := dflt } (rel1_init ds split dflt)
     hwf.tiles hwf.lens
-  exact ⟨this.1, this.2.1, fun hf => this.2.2 (rel2_init ds t.enc dflt) hf⟩
+  exact ⟨this.1, this.2.1, this.2.2 (rel2_init ds t dflt) (charAt_start t hwf)⟩
 
 theorem final_segs : (finalGhost ds t split).chunks.flatten ++ (finalGhost ds t split).cur = t.segs := by
   have := gFold_segs ds split t.segs {}
@@ -115,8 +114,7 @@ theorem split_structure (ds : DataSource) (t : Text) (dflt : Option Nat) (hwf : 
       (∀ ch ∈ done, IsChunk ds ch) ∧ (∀ s ∈ cur, ds.cls s.cp ≠ B) ∧
       (computeInitialInfo ds t dflt true).paras = (allChunks done cur).map (mkPara ds dflt) ∧
       (computeInitialInfo ds t dflt true).flags.length = (computeInitialInfo ds t dflt true).paras.length ∧
-      ((∀ s ∈ t.segs, FSILen ds t.enc s) →
-        (computeInitialInfo ds t dflt true).classes = ((allChunks done cur).map (chunkClasses ds)).flatten) := by
+      (computeInitialInfo ds t dflt true).classes = ((allChunks done cur).map (chunkClasses ds)).flatten := by
   obtain ⟨r1, hpos, r2⟩ := final_rel ds t dflt true hwf
   have hsegs := final_segs ds t true
   refine ⟨(finalGhost ds t true).chunks, (finalGhost ds t true).cur, ?_, r1.chunksOK, r1.curOK rfl, ?_, ?_, ?_⟩
@@ -147,9 +145,7 @@ theorem split_structure (ds : DataSource) (t : Text) (dflt : Option Nat) (hwf : 
     split
     · simp [r1.flags]
     · exact r1.flags
-  · intro hf
-    have r2 := r2 hf
-    rw [cii_classes, r2.classes]
+  · rw [cii_classes, r2.classes]
     have := cRun_cls_spec dflt (clsOf ds (finalGhost ds t true).cur) (fun c hc => by
         simp only [clsOf, List.mem_map] at hc
         obtain ⟨x, hx, rfl⟩ := hc
@@ -163,8 +159,7 @@ theorem split_structure (ds : DataSource) (t : Text) (dflt : Option Nat) (hwf : 
 
 theorem single_structure (ds : DataSource) (t : Text) (dflt : Option Nat) (hwf : t.WF) :
     (computeInitialInfo ds t dflt false).lastLevel = (cRun dflt (clsOf ds t.segs)).lvl.getD 0 ∧
-    ((∀ s ∈ t.segs, FSILen ds t.enc s) →
-      (computeInitialInfo ds t dflt false).classes = expand t.segs (cRun dflt (clsOf ds t.segs)).cls) := by
+    (computeInitialInfo ds t dflt false).classes = expand t.segs (cRun dflt (clsOf ds t.segs)).cls := by
   obtain ⟨r1, hpos, r2⟩ := final_rel ds t dflt false hwf
   have hsegs := final_segs ds t false
   have hch := r1.nosplit rfl
@@ -172,9 +167,7 @@ theorem single_structure (ds : DataSource) (t : Text) (dflt : Option Nat) (hwf :
   simp only [List.flatten_nil, List.nil_append] at hsegs
   refine ⟨?_, ?_⟩
   · rw [cii_lastLevel, r1.lvl, hsegs]
-  · intro hf
-    have r2 := r2 hf
-    rw [cii_classes, r2.classes, hch, hsegs]; simp
+  · rw [cii_classes, r2.classes, hch, hsegs]; simp
 
 /-- both modes: length of the classes, and no panic -/
 theorem classes_length (ds : DataSource) (t : Text) (dflt : Option Nat) (split : Bool) (hwf : t.WF) :
@@ -182,10 +175,10 @@ theorem classes_length (ds : DataSource) (t : Text) (dflt : Option Nat) (split :
   obtain ⟨r1, hpos, _⟩ := final_rel ds t dflt split hwf
   rw [cii_classes, r1.len, hpos]
 
-theorem no_panic (ds : DataSource) (t : Text) (dflt : Option Nat) (split : Bool) (hwf : t.WF)
-    (hf : ∀ s ∈ t.segs, FSILen ds t.enc s) : (computeInitialInfo ds t dflt split).err = none := by
+theorem no_panic (ds : DataSource) (t : Text) (dflt : Option Nat) (split : Bool) (hwf : t.WF) :
+    (computeInitialInfo ds t dflt split).err = none := by
   obtain ⟨_, _, r2⟩ := final_rel ds t dflt split hwf
-  rw [cii_err]; exact (r2 hf).err
+  rw [cii_err]; exact r2.err
 
 /-! ### unit by unit -/
 
